@@ -24,7 +24,8 @@ for d in sorted(glob.glob(os.path.join(VERIF, 'seeded', '*'))):
     summ = (m.get('summary') or '').replace('|', '/').replace('\n', ' ')
     if len(summ) > 150:
         summ = summ[:147] + '...'
-    rows.append('| %s | %s | %s | %s |' % (os.path.basename(d), summ, verdict(first), verdict(last) if len(runs) > 1 else ''))
-print('| seeded change | what was changed (author\'s summary) | first evaluation | after strengthening |')
-print('|---|---|---|---|')
+    sigs = ', '.join('`%s`' % x for x in (last.get('signatures') or [])[:3])
+    rows.append('| %s | %s | %s | %s | %s |' % (os.path.basename(d), summ, verdict(first), verdict(last) if len(runs) > 1 else '', sigs))
+print('| seeded change | what was changed (author\'s summary) | first evaluation | final evaluation | reported as |')
+print('|---|---|---|---|---|')
 print('\n'.join(rows))
